@@ -94,6 +94,8 @@ type Path struct {
 	Events   []Event
 	Ret      []*Term
 	Problems []string
+	Panic    bool   // the path ends in an explicit panic
+	PanicPos string
 }
 
 // Interp evaluates cache-layer functions.
@@ -105,6 +107,7 @@ type Interp struct {
 	// so that tables do not depend on identifier spelling. Names not listed are kept.
 	FieldRole map[string]string
 	MaxPaths  int
+	panics    []Path
 	paths     int
 	Overflow  bool
 }
@@ -151,7 +154,67 @@ func (it *Interp) Run(fn *ssa.Function) []Path {
 		}
 		out = append(out, Path{PC: s.PC, Events: s.Events, Ret: rets, Problems: s.Problems})
 	})
+	// explicit panics. A panic taken exactly because a function-typed argument is nil is argument validation: calls
+	// with a nil function are outside every property's quantifier (they cannot do what the method promises), so such a
+	// path is dropped together with the 'argument is not nil' atom it leaves on the other paths. Any other explicit
+	// panic is kept as a path of its own (outcome: panic).
+	nilAtom := func(a Atom) (string, bool) {
+		if a.V && a.T.Op == "cmp" && a.T.K == "==" && len(a.T.Args) == 2 {
+			for i := 0; i < 2; i++ {
+				if a.T.Args[i].Op == "param" && a.T.Args[1-i].IsZero() && it.funcParam(fn, a.T.Args[i].K) {
+					return a.T.String(), true
+				}
+			}
+		}
+		return "", false
+	}
+	dropKeys := map[string]bool{}
+	for _, pp := range it.panics {
+		validation := false
+		for _, a := range pp.PC {
+			if k, ok := nilAtom(a); ok {
+				validation = true
+				dropKeys[k] = true
+			}
+		}
+		if !validation {
+			out = append(out, pp)
+		}
+	}
+	if len(dropKeys) > 0 {
+		var kept []Path
+		for _, p := range out {
+			outside := false
+			var pc []Atom
+			for _, a := range p.PC {
+				if dropKeys[a.T.String()] {
+					if a.V {
+						outside = true // a call with the nil function that happens not to need it: outside the quantifier as well
+					}
+					continue
+				}
+				pc = append(pc, a)
+			}
+			if outside {
+				continue
+			}
+			p.PC = pc
+			kept = append(kept, p)
+		}
+		out = kept
+	}
+	it.panics = nil
 	return out
+}
+
+// funcParam: the positional parameter name (a0, a1, ...) denotes a function-typed parameter of fn.
+func (it *Interp) funcParam(fn *ssa.Function, name string) bool {
+	var idx int
+	if _, err := fmt.Sscanf(name, "a%d", &idx); err != nil || idx < 0 || idx >= len(fn.Params) {
+		return false
+	}
+	_, ok := fn.Params[idx].Type().Underlying().(*types.Signature)
+	return ok
 }
 
 func (it *Interp) call(fn *ssa.Function, args []*Term, bind []*Term, st *State, depth int, k cont) {
@@ -442,7 +505,11 @@ func (it *Interp) instrs(fr *frame, b *ssa.BasicBlock, i int, st *State, k cont)
 			k(st, rets)
 			return
 		case *ssa.Panic:
-			return // path ends in a panic: not a return path
+			// path ends in a panic: not a return path; recorded for Run
+			if fr.depth == 0 || true {
+				it.panics = append(it.panics, Path{PC: append([]Atom(nil), st.PC...), Events: append([]Event(nil), st.Events...), Problems: st.Problems, Panic: true, PanicPos: it.P.InstrPos(x)})
+			}
+			return
 		case *ssa.Call:
 			next := i + 1
 			it.doCall(fr, x, st, func(st2 *State, rets []*Term) {
@@ -752,8 +819,19 @@ func (it *Interp) doCall(fr *frame, c ssa.CallInstruction, st *State, k cont) {
 	default:
 		st.nCall++
 		st.Events = append(st.Events, Event{Kind: "dyncall", N: st.nCall, InOp: st.curOp, InRange: st.curRng, Name: fv.String(), Args: args, Pos: pos})
-		st.Problems = append(st.Problems, "call of a function value of unknown role "+fv.String()+" at "+pos)
-		k(st, []*Term{Leaf("undef", "dyn")})
+		// a function value the library itself keeps (a hook in a field of the cache object, a logger held in a package
+		// variable): the call is recorded - rules about what may run under a lock see it - and its results are opaque
+		hook := fv.Contains(func(x *Term) bool { return x.Op == "undef" }) == false && (fv.Op == "field" || fv.Op == "aux" || fv.Op == "deref" || fv.Op == "global" || fv.Op == "ext")
+		if !hook {
+			st.Problems = append(st.Problems, "call of a function value of unknown role "+fv.String()+" at "+pos)
+			k(st, []*Term{Leaf("undef", "dyn")})
+			return
+		}
+		var rets []*Term
+		for i := 0; i < cc.Signature().Results().Len(); i++ {
+			rets = append(rets, &Term{Op: "ext", K: fmt.Sprintf("hook#%d.%d", st.nCall, i), Args: args})
+		}
+		k(st, rets)
 	}
 }
 
@@ -816,7 +894,7 @@ func (it *Interp) atomicSetting(id string, cal *ssa.Function, args []*Term, st *
 			isSetting = true
 		}
 	}
-	if !isSetting && meth != "Load" {
+	if !isSetting && (meth != "Load" || args[0].Op != "fieldaddr") {
 		// an auxiliary atomic word (statistics counter, flag): the operation is recorded, its result is opaque; it
 		// takes no part in the decision tables unless its value reaches a branch or an output
 		st.nCall++
@@ -864,7 +942,7 @@ func (it *Interp) atomicSetting(id string, cal *ssa.Function, args []*Term, st *
 // pureStd: standard-library callees that neither touch the cache nor decide anything: diagnostics and formatting.
 // Their results stay opaque terms over their arguments (so a value passed through them is still traced).
 func pureStd(id string) bool {
-	for _, p := range []string{"fmt.", "strings.", "strconv.", "errors.", "math.", "unicode/utf8.", "log.Print", "log.Output", "(*log.Logger).Print", "(*log.Logger).Output", "log.Default", "log.New", "os.Getenv", "(*strings.Builder).", "(*bytes.Buffer)."} {
+	for _, p := range []string{"fmt.", "strings.", "strconv.", "errors.", "math.", "unicode/utf8.", "log.Print", "log.Output", "(*log.Logger).Print", "(*log.Logger).Output", "log.Default", "log.New", "os.Getenv", "(*strings.Builder).", "(*bytes.Buffer).", "(time.Duration).", "(time.Time).", "(time.Month).", "(time.Weekday)."} {
 		if strings.HasPrefix(id, p) {
 			return true
 		}
